@@ -260,6 +260,15 @@ def check(run, model, tier):
                  % norm(s.ast), node=s.ast, obligation=True)
     for a in appends:
         guarded = any(guarded_by_edge(g, a, t, lab) for t in id_tests for lab in ('true', 'false'))
+        if not guarded:
+            # search loop with else: `for k in reg: if k is queue: break` ... `else: reg.append(queue)` - the else branch runs exactly when no element was identical
+            for L in [x for x in ast.walk(h.node) if isinstance(x, ast.For) and x.orelse]:
+                in_else = any(any(y is c_ for y in ast.walk(st_)) for st_ in L.orelse for c_ in a.calls())
+                brks = [y for y in ast.walk(ast.Module(body=L.body, type_ignores=[])) if isinstance(y, ast.Break)]
+                id_brk = [i_ for i_ in ast.walk(ast.Module(body=L.body, type_ignores=[])) if isinstance(i_, ast.If) and any(t.ast is i_.test for t in id_tests)
+                          and len(i_.body) == 1 and isinstance(i_.body[0], ast.Break) and not i_.orelse]
+                if in_else and len(brks) == 1 and len(id_brk) == 1:
+                    guarded = True
         what = [c for c in a.calls() if isinstance(c.func, ast.Attribute) and c.func.attr == 'append']
         arg_ok = all(len(c.args) == 1 and isinstance(c.args[0], ast.Name) and c.args[0].id == queue_name for c in what) and bool(what)
         run.inst('SUBSCRIBE.paths', h, 'append of the queue is decided by the identity test', guarded and arg_ok,
